@@ -64,30 +64,34 @@ def api_cases(ctx, rng):
 
 
 def api_monitor(case, rec):
-    """(key, what) list: the first sentence of the property on the real submit()"""
+    """(key, what) list: the first sentence of the property on the real submit().  "Identical configuration" = same
+    identifier as the real code reports it (two different generated graphs may be the same configuration, e.g. when
+    they differ in ignored values only)."""
     fails = []
-    first_of = {}  # graph index -> step number (among submissions) of the first submission still standing
-    failed_known = set()
+    first_of = {}  # identifier -> number (among submissions) of the first submission still standing
+    failing = set(rec.get("failing", []))
     sub = -1
     njobs_prev = 0
-    waited_since = {}
     for st, r in zip(case["history"], rec["steps"]):
         if st.get("wait"):
-            # after a wait every earlier job is final: those of failing graphs (first run) have failed
-            for g in list(first_of):
-                if g in case["fail"] and g not in failed_known:
-                    failed_known.add(g)
-                    first_of.pop(g)
+            # after a wait every earlier job is final: those that fail the first time have failed
+            for ident in list(first_of):
+                if ident in failing:
+                    first_of.pop(ident)
+                    failing.discard(ident)
             continue
         sub += 1
-        g = st["g"]
-        if g in first_of:
-            if r["ret"] != first_of[g] and not (g in case["fail"]):
-                fails.append(("submit-returned-other-object", f"submission {sub} of a configuration identical to submission {first_of[g]} returned the output of submission {r['ret']}"))
-            if r["njobs"] != njobs_prev and not (g in case["fail"]):
-                fails.append(("duplicate-created-second-job", f"submission {sub} (identical to {first_of[g]}) changed the number of registered jobs {njobs_prev} -> {r['njobs']}"))
+        ident = r["identifier"]
+        if ident in first_of:
+            if ident not in failing:
+                if r["ret"] != first_of[ident]:
+                    fails.append(("submit-returned-other-object", f"submission {sub} of a configuration identical to submission {first_of[ident]} returned the output of submission {r['ret']}"))
+                if r["njobs"] != njobs_prev:
+                    fails.append(("duplicate-created-second-job", f"submission {sub} (identical to {first_of[ident]}) changed the number of registered jobs {njobs_prev} -> {r['njobs']}"))
         else:
-            first_of[g] = sub
+            first_of[ident] = sub
+            if r["ret"] != sub:
+                fails.append(("submit-returned-other-object", f"submission {sub} of a new configuration returned the output of submission {r['ret']}"))
         njobs_prev = r["njobs"]
     if rec.get("hang"):
         fails.append(("experiment-does-not-finish", "the experiment did not finish within the time limit (submission history with duplicates, instant launcher)"))
@@ -119,7 +123,7 @@ def api_part(ctx):
             errs += 1
             ctx.count("api_case_errors", rec["error"][:60])
             continue
-        subs = [st["g"] for st in case["history"] if "g" in st]
+        subs = [r["identifier"] for r in rec["steps"] if "identifier" in r]
         dup = len(set(subs)) < len(subs)
         ctx.case({"api": {"history": case["history"], "fail": case["fail"], "n_graphs": len(case["graphs"])}}, dup)
         ctx.count("api_history_len", len(subs))
